@@ -958,3 +958,75 @@ def pyop_probe(payload):
             u = ops[0]
             res.append([form, u['cls'], u['sp'], [tok(a, k) for a, k in u['ins']]])
     return res
+
+
+def invalid_sweep(payload):
+    """C02, invalid graphs, every unit class: each constructor argument in turn is replaced by NaN /
+    None / a string (the other arguments keep their defaults or get a noise signal); the definition
+    must be rejected — or the unit legitimately dropped — never compiled to bytes that contain the
+    unit fed by the invalid value."""
+    _init(payload.get('mode', 'nrt'))
+    from sc3.synth import ugen as ugn
+    from sc3.base import main as _libsc3
+    from sc3.synth.synthdef import SynthDef
+    from sc3.synth.ugens.noise import WhiteNoise
+    from sc3.synth.ugens.inout import Out
+    table = _class_table()
+    res = []
+    kinds = payload.get('kinds', ['nan'])
+    for name in sorted(table):
+        modname = table[name][2]
+        mod = ugn if modname == 'ugen' else importlib.import_module('sc3.synth.ugens.' + modname)
+        cls = getattr(mod, name)
+        if not issubclass(cls, ugn.UGen) or name in ('OutputProxy',):
+            continue
+        for ctor in ('ar', 'kr', 'ir', 'dr', 'new'):
+            fn = getattr(cls, ctor, None)
+            if fn is None or (ctor == 'new' and 'new' not in vars(cls)):
+                continue
+            try:
+                params = [p for p in inspect.signature(fn).parameters.values()
+                          if p.kind in (p.POSITIONAL_ONLY, p.POSITIONAL_OR_KEYWORD)]
+            except (TypeError, ValueError):
+                continue
+            if not params or len(params) > 12:
+                continue
+            for k in range(len(params)):
+                for kind in kinds:
+                    bad = {'nan': float('nan'), 'none': None, 'str': 'x', 'inf': float('inf')}[kind]
+                    st = {}
+
+                    def f():
+                        args = []
+                        for j, p in enumerate(params):
+                            if j == k:
+                                args.append(bad)
+                            elif p.default is not p.empty:
+                                args.append(p.default)
+                            else:
+                                args.append(WhiteNoise.ar() if ctor == 'ar' else WhiteNoise.kr())
+                        n0 = len(_libsc3.main._current_synthdef._children)
+                        x = fn(*args)
+                        st['made'] = [c for c in _libsc3.main._current_synthdef._children[n0:] if type(c).__name__ == name]
+                        if isinstance(x, ugn.UGen) and x.rate in ('audio', 'control'):
+                            (Out.ar if x.rate == 'audio' else Out.kr)(0, x)
+                        elif isinstance(x, list) and x and isinstance(x[0], ugn.UGen) and x[0].rate in ('audio', 'control'):
+                            (Out.ar if x[0].rate == 'audio' else Out.kr)(0, x[0])
+                    try:
+                        sd = SynthDef('iv', f)
+                        raw = bytes(sd.as_bytes())
+                    except Exception:
+                        continue                     # rejected (or not constructible this way)
+                    if not st.get('made'):
+                        continue
+                    kids = list(sd._children)
+                    survivors = [c for c in st['made'] if any(c is q for q in kids)]
+                    if not survivors:
+                        continue
+                    # does the surviving unit really carry the invalid value?
+                    u = survivors[0]
+                    carries = any((isinstance(i, float) and (i != i or i in (float('inf'), float('-inf')))) or i is None or isinstance(i, str)
+                                  for i in u.inputs)
+                    if carries:
+                        res.append([name, ctor, k, params[k].name, kind])
+    return res
